@@ -381,3 +381,16 @@ MORE10 = {
 }
 for _k, _v in MORE10.items():
     MORE[_k] = (MORE[_k] + ' ' if _k in MORE else '') + _v
+
+
+MORE11 = {
+    'C01': 'R01.26 line splitting keeps terminators; R01.25 also rejects diffs derived from difflib opcodes outside seq_difflib.',
+    'C04': 'R04.15 /nbformat_minor is always take-max.',
+    'C08': 'R08.17 file names are used verbatim (no expanduser / expandvars / abspath).',
+    'C15': 'R15.19 take_max ranges over base, local, remote on both sides (R04.4); R15.20 decisions leave in validated() order (R09.2).',
+    'C16': 'R16.25 action tables indexed with .action cover every emitted action.',
+    'C17': 'R17.20 git check-attr is run with -z.',
+    'C20': 'R20.19 nothing touches the notebooks between reading them and the library call.',
+}
+for _k, _v in MORE11.items():
+    MORE[_k] = (MORE[_k] + ' ' if _k in MORE else '') + _v
